@@ -10,6 +10,23 @@ NOTES = {
  "C02-b": "missed at first: only owning tokenizers were driven past their first error; C02 (two new entry points), C11 (`arbitrary-bytes`, `short-inputs`) and C19 (Display of `Decoder::tokens()`) now also drive the borrowing forms `Decoder::tokens()` and `Tokenizer::from(&mut Decoder)`",
  "C03-b": "missed at first: the inexact iterators were all `filter` adaptors, whose hint is (0, Some(n)); `iter-encoders` now wraps the iterator in a type reporting a generated truthful hint ((0,None), (k,None), (n,None), (0,Some(n)), (n,Some(n+d)), (k,Some(m)), exact) and also uses `flat_map`",
  "C08-b": "missed at first: every nil-capable field of the schema grammar was either a literal `Option<..>` or carried a custom codec attribute; the grammar now also has a user type overriding `Encode::is_nil`/`Decode::nil`, a type alias of `Option<u8>`, and generic structs instantiated at `Option<u16>` (the false alarm this uncovered in the generator - `Option` around a transparent newtype of an `Option` - is excluded by construction, see DESIGN.md section 9)",
+ "C01-c": "missed at first: address generators were uniform over the bits; now class-aware (IPv4-mapped, loopback, multicast, ...)",
+ "C03-c": "missed at first: no byte-level reference for Token encoding beyond half-representable payloads; added `token-bytes` (and `iana-tags`)",
+ "C07-c": "missed at first: the >= 24-field schemas only had literal Option fields; trait-level nil types added to them",
+ "C09-c": "missed at first: no Box<Option<T>> field type in the grammar; added",
+ "C10-c": "missed at first: unknown-field content was limited to what the schema grammar expresses; C10 now injects fields of arbitrary well-formed content and re-frames the writer's bytes",
+ "C16-c": "missed at first: the harness's own sync() after every write repaired the stale state; the extra idle sync is now a generated choice",
+ "C02-d": "missed at first: no input deeper than 10^4 and 64 MiB worker stacks; deep chains (to 10^5) through every entry point on a 2 MiB stack, crash supervision with the handler on the alternate stack",
+ "C04-d": "missed at first: the broken CString invariant is invisible to a data-model comparison; added `cstr-shapes`",
+ "C08-d": "missed at first: no decode_with-only / encode_with-only fields in the grammar; forwarding codec attributes added",
+ "C09-d": "missed at first: attribute key order was fixed; key order and distribution over several attributes are now permuted",
+ "C10-d": "missed at first: `Option` was always spelled unqualified; four spellings now",
+ "C11-d": "missed at first: tag numbers were boundary-dense, never the registered ones, and only Decoder::tokens was compared with the model; registered tags generated, all four constructors must agree",
+ "C12-d": "first reported by C17 only; C12 now has a serde-bridge half (C12S)",
+ "C17-d": "missed at first: borrowed deserialisation was only checked in a plain struct; added `borrowed-buffered`",
+ "C18-d": "missed at first: no array of 23-25 elements in the shared model; added",
+ "C19-d": "missed at first: exact rendering only to depth 8; added `deep-chains`",
+ "C20-d": "missed at first: no chain beyond 10^4 levels; chains up to 10^5 in the corpus",
  "C20-a": "also reported by the no-alloc half of C06; needed the tightened difference rule r1 (a no-alloc skip may differ only by the documented refusal, never by position)",
 }
 rows = []
